@@ -639,7 +639,14 @@ def _new_sampler(w, o):
     st = mk_state(w, o["state"])
     src = None if o.get("src") is None else w.get("src", o["src"])
     det = None if o.get("det") is None else w.get("det", o["det"])
-    s = w.call(emu.Sampler, c, st, src, det, o.get("backend"))
+    kw = {}
+    if src is not None:
+        kw["source"] = src
+    if det is not None:
+        kw["detector"] = det
+    if o.get("backend") is not None:
+        kw["backend"] = o["backend"]
+    s = w.call(emu.Sampler, c, st, **kw)   # omitted arguments stay omitted
     w.put("sam", o["out"], s, circuit=o["c"], src=o.get("src"),
           det=o.get("det"), state="new")
     _hold(w, o["c"])
@@ -650,7 +657,12 @@ def _new_quick(w, o):
     c = w.get("c", o["c"])
     st = mk_state(w, o["state"])
     ps = _psobj(w, o.get("ps"))
-    q = w.call(emu.QuickSampler, c, st, o.get("pnr", True), ps)
+    kw = {}
+    if "pnr" in o:
+        kw["photon_counting"] = o["pnr"]
+    if ps is not None:
+        kw["post_select"] = ps
+    q = w.call(emu.QuickSampler, c, st, **kw)
     w.put("qs", o["out"], q, circuit=o["c"], ps=o.get("ps"), state="new")
     _hold(w, o["c"])
 
